@@ -1052,3 +1052,55 @@ func runnerFieldsOf(v ssa.Value, d int) []string {
 	sort.Strings(out)
 	return out
 }
+
+// globalAllZero: the package-level variable is initialised to the zero value of its type: no initialiser, or a
+// (possibly nested) composite literal whose leaves are all constant zeros.
+func globalAllZero(p *Prog, g *ssa.Global) bool {
+	spec, pk := globalSpec(p, g)
+	if spec == nil {
+		return false
+	}
+	var zero func(e ast.Expr) bool
+	zero = func(e ast.Expr) bool {
+		switch x := e.(type) {
+		case *ast.CompositeLit:
+			for _, el := range x.Elts {
+				if kv, ok := el.(*ast.KeyValueExpr); ok {
+					el = kv.Value
+				}
+				if !zero(el) {
+					return false
+				}
+			}
+			return true
+		case *ast.ParenExpr:
+			return zero(x.X)
+		}
+		tv := pk.TypesInfo.Types[e]
+		if tv.Value == nil {
+			return false
+		}
+		switch tv.Value.Kind() {
+		case constant.Int, constant.Float:
+			return constant.Sign(tv.Value) == 0
+		case constant.Bool:
+			return !constant.BoolVal(tv.Value)
+		case constant.String:
+			return constant.StringVal(tv.Value) == ""
+		}
+		return false
+	}
+	for i, n := range spec.Names {
+		if n.Name != g.Name() {
+			continue
+		}
+		if len(spec.Values) == 0 {
+			return true
+		}
+		if i >= len(spec.Values) {
+			return false
+		}
+		return zero(spec.Values[i])
+	}
+	return false
+}
